@@ -64,6 +64,14 @@ static void pairs_case(const Cfg &c, bool grid, int lists, bool excl) {
   if (lists == 2) l2.Generate(top, "B");
   calls.clear();
   std::unique_ptr<NBList> nb(grid ? (NBList *)new NBListGrid() : new NBList());
+  // one case in three uses a search object that has already searched the same topology with a smaller (or, rarely, larger) cutoff:
+  // the property is about every search, not only the first one an object performs
+  static long reuse_ctr = 0;
+  if (++reuse_ctr % 3 == 0) {
+    nb->setCutoff(c.rc * (reuse_ctr % 5 == 0 ? 1.7 : reuse_ctr % 2 ? 0.31 : 0.55));
+    if (lists == 1) nb->Generate(l1, excl); else nb->Generate(l1, l2, excl);
+    nb->Cleanup();
+  }
   nb->setCutoff(c.rc);
   nb->SetMatchFunction(counter);
   if (lists == 1) nb->Generate(l1, excl); else nb->Generate(l1, l2, excl);
@@ -82,6 +90,12 @@ static void triples_case(const Cfg &c, bool grid, int ntypes, bool excl) {
   if (ntypes >= 2) l2.Generate(top, "B");
   if (ntypes == 3) l3.Generate(top, "C");
   std::unique_ptr<NBList_3Body> nb(grid ? (NBList_3Body *)new NBListGrid_3Body() : new NBList_3Body());
+  static long reuse_ctr3 = 0;
+  if (++reuse_ctr3 % 3 == 0) {
+    nb->setCutoff(c.rc * (reuse_ctr3 % 5 == 0 ? 1.7 : reuse_ctr3 % 2 ? 0.31 : 0.55));
+    if (ntypes == 1) nb->Generate(l1, excl); else if (ntypes == 2) nb->Generate(l1, l2, excl); else nb->Generate(l1, l2, l3, excl);
+    nb->Cleanup();
+  }
   nb->setCutoff(c.rc);
   if (ntypes == 1) nb->Generate(l1, excl); else if (ntypes == 2) nb->Generate(l1, l2, excl); else nb->Generate(l1, l2, l3, excl);
   std::ostringstream o;
